@@ -283,7 +283,8 @@ class EndToEnd(Sub):
             "commit held while the streams were pumped, or after an early (pre-link) event")
 
     def strategy(self, tier):
-        op = st.one_of(st.tuples(st.just("event"), st.integers(0, 1), st.booleans()).map(list), st.just(["pump"]))
+        op = st.one_of(st.tuples(st.just("event"), st.integers(0, 1), st.booleans()).map(list), st.just(["pump"]),
+                       st.just(["both"]))   # the same new event is submitted to both workers in the same instant
         plain = st.lists(op, min_size=1, max_size=6)
         # second family: a worker's notifier link backs up (its announcements stay pending) while its subscriber replaces
         # the subscription; events are of kind 1 or 2 and run as tasks (an acceptance may have to wait for the link)
@@ -420,6 +421,15 @@ class EndToEnd(Sub):
                     pending_adds.append(asyncio.create_task(rigs[op[1]].storage.add_event(dict(ev))))
                     await spin(rigs, wall=0.02)
                     nt = nt or any(wr.stalled for wr in cli_writers.values())
+                    continue
+                if op[0] == "both":
+                    n += 1
+                    ev = E.make(n % 3, 1, E.T0 + n, [], "event %d on both workers" % n)
+                    await asyncio.gather(*[r.storage.add_event(dict(ev)) for r in rigs], return_exceptions=True)
+                    labels.append("same-event-on-both-workers")
+                    nt = True
+                    sent.append((ev, True))
+                    await spin(rigs)
                     continue
                 w, held = op[1], op[2]
                 n += 1
